@@ -2,7 +2,11 @@
 reg("C11", "model_checking", [P("buf", "explore")])
 reg("C13", "exploration", [P("codec", "pnm"), P("codec", "pnm", profile="verif-rel", tiers=("thorough",), name="pnm-rel")])
 reg("C14", "exploration", [P("codec", "obj"), P("codec", "obj", profile="verif-rel", name="obj-rel")])
-reg("C16", "exploration", [P("color", "all"), P("color", "all", profile="verif-rel", tiers=("thorough",), name="all-rel")])
+reg("C16", "exploration", [P("color", "all"), P("color", "all", profile="verif-rel", tiers=("thorough",), name="all-rel"),
+    # the float conversions again in the three non-std float configurations (their rem_euclid/floor/abs differ)
+    P("fpcfg", "color", package="fpcfg", features="cfg_none", name="color-cfg-none"),
+    P("fpcfg", "color", package="fpcfg", features="cfg_libm", name="color-cfg-libm"),
+    P("fpcfg", "color", package="fpcfg", features="cfg_mm", name="color-cfg-mm")])
 reg("C19", "exploration", [P("prng", "all")])
 reg("C20", "exploration", [
     P("fpcfg", "all", package="fpcfg", features="cfg_none", name="cfg-none"),
